@@ -221,6 +221,10 @@ class Task:
                 if z3.is_expr(t):
                     out[k] = str(model.eval(t, model_completion=True))
             out["_top0"] = str(model.eval(z3.Int("top0"), model_completion=True))
+            from . import replay
+            for k, ty in self.params.items():
+                if ty == "Node" and k in self.arg_terms:
+                    out["$node:" + k] = replay.node_to_py(model, c.heap0, self.arg_terms[k])
             if self.world_model_hook is not None:
                 out.update(self.world_model_hook(self, c, model))
         except Exception as ex:  # never let model printing break a verdict
